@@ -22,6 +22,7 @@ import (
 	"github.com/oasisprotocol/oasis-core/go/common/identity"
 	"github.com/oasisprotocol/oasis-core/go/common/logging"
 	"github.com/oasisprotocol/oasis-core/go/common/quantity"
+	"github.com/oasisprotocol/oasis-core/go/common/verifhook"
 	"github.com/oasisprotocol/oasis-core/go/consensus/cometbft/api"
 	consensusState "github.com/oasisprotocol/oasis-core/go/consensus/cometbft/apps/consensus/state"
 	consensusGenesis "github.com/oasisprotocol/oasis-core/go/consensus/genesis"
@@ -440,10 +441,12 @@ func (s *applicationState) doCommit() (uint64, error) {
 	s.proposal.reset()
 	s.proposal = nil
 
+	verifhook.At("abci.doCommit.beforeTreeCommit")
 	_, stateRootHash, err := s.canonicalState.Commit(s.ctx, s.stateRoot.Namespace, s.stateRoot.Version+1)
 	if err != nil {
 		return 0, fmt.Errorf("failed to commit: %w", err)
 	}
+	verifhook.At("abci.doCommit.afterTreeCommit")
 	newStateRoot := storage.Root{
 		Namespace: s.stateRoot.Namespace,
 		Version:   s.stateRoot.Version + 1,
@@ -453,6 +456,7 @@ func (s *applicationState) doCommit() (uint64, error) {
 	if err = s.storage.NodeDB().Finalize([]storage.Root{newStateRoot}); err != nil {
 		return 0, fmt.Errorf("failed to finalize height %d: %w", newStateRoot.Version, err)
 	}
+	verifhook.At("abci.doCommit.afterFinalize")
 
 	s.stateRoot.Hash = stateRootHash
 	s.stateRoot.Version++
